@@ -134,6 +134,16 @@ func luaReturn(kind string) string {
 	return "return " + kind
 }
 
+// longDriver: three nested countdown loops, 82 * 256 * (256 * 5 + 5) + ... = about 27 million clock cycles, then the marker
+// $5A at $0300, then the BRK
+var longDriver = prg(0x0800,
+	0xA9, 0x52, 0x85, 0x10, // LDA #82; STA $10
+	0xA2, 0x00, 0xA0, 0x00, // LDX #0; LDY #0
+	0xCA, 0xD0, 0xFD, // l: DEX; BNE l
+	0x88, 0xD0, 0xFA, // DEY; BNE l
+	0xC6, 0x10, 0xD0, 0xF6, // DEC $10; BNE l
+	0xA9, 0x5A, 0x8D, 0x00, 0x03, 0x00) // LDA #$5A; STA $0300; BRK
+
 func verdictCase(r *rng.R, dir string, fixedBin string) string {
 	ni := numIterKinds[r.Intn(len(numIterKinds))]
 	if r.Chance(60) {
@@ -170,6 +180,16 @@ func verdictCase(r *rng.R, dir string, fixedBin string) string {
 	if fixedBin != "" {
 		bin = fixedBin
 	}
+	if bin == "long" || bin == "longmark" {
+		// a driver that needs about 27 million clock cycles before it stores its marker and reaches its BRK: one iteration,
+		// nothing else that could fail the case
+		ni = []string{"absent", "1"}[r.Intn(2)]
+		for i := range asserts {
+			asserts[i] = []string{"true", "truemsg"}[r.Intn(2)]
+		}
+		arrangeErrAt, scriptBroken = -1, false
+		count("verdict." + bin)
+	}
 	if strings.HasPrefix(bin, "undef.") {
 		model = strings.Split(bin, ".")[1]
 		count("verdict.undef." + model)
@@ -186,6 +206,10 @@ func verdictCase(r *rng.R, dir string, fixedBin string) string {
 	sb.WriteString(luaNumIters(ni))
 	fmt.Fprintf(&sb, "function arrange()\n  set_pc(load_address)\n  if iter == %d then error('arrange boom') end\nend\n", arrangeErrAt)
 	sb.WriteString("function assert()\n  iter = iter + 1\n")
+	if bin == "longmark" {
+		// true only if the driver got as far as its last store
+		sb.WriteString("  if read_byte(0x0300) ~= 0x5A then return false, 'marker missing' end\n")
+	}
 	for i, a := range asserts {
 		fmt.Fprintf(&sb, "  if iter == %d then %s end\n", i+1, luaReturn(a))
 	}
@@ -225,6 +249,8 @@ func verdictCase(r *rng.R, dir string, fixedBin string) string {
 	case "toobig":
 		// a driver that does not fit into the memory of the machine (32K): loading faults, although what does fit is a BRK
 		code = prg(0x7FFE, 0x00, 0x00, 0x00, 0x00)
+	case "long", "longmark":
+		code = longDriver
 	case "trapok", "trapraise", "trapmissing", "trapruntime":
 		code = prg(0x0800, 0xA9, 0x42, 0x8D, 0x00, 0x7F, 0xE8, 0x00) // LDA #$42; STA $7F00 (trap); INX
 	case "trapfirstraise", "trapsecondraise":
@@ -251,7 +277,12 @@ func verdictCase(r *rng.R, dir string, fixedBin string) string {
 		c.Mem = ph.Wrapper
 	}
 	crashed := false
-	if r.Chance(40) {
+	viaCmd := r.Chance(40)
+	if bin == "long" {
+		// (the machine is looked at after the run: through Execute)
+		viaCmd = false
+	}
+	if viaCmd {
 		// through the real `verify` command: configuration file, case file, this binary as the assembler
 		count("verdict.verifycommand")
 		self, e := os.Executable()
@@ -291,6 +322,10 @@ func verdictCase(r *rng.R, dir string, fixedBin string) string {
 	}
 	if crashed {
 		res = "hostcrash"
+	}
+	if bin == "long" && res == "ok" && c.Mem.Load(0x0300) != 0x5A {
+		// reported OK although the driver never got to its last store, let alone its BRK
+		res = "cutshort"
 	}
 	sb2 := "0"
 	if scriptBroken {
@@ -527,6 +562,10 @@ func verdictStream(seed uint64, n int) {
 	for _, fb := range verdictFixed {
 		emit(verdictCase(r, dir, fb))
 	}
+	// two long-running drivers per run (a few hundred milliseconds each): one whose assert needs the marker the driver
+	// stores last, one whose assert returns true whatever happened and whose machine is looked at afterwards
+	emit(verdictCase(r, dir, "longmark"))
+	emit(verdictCase(r, dir, "long"))
 	for i := 0; i < n; i++ {
 		emit(verdictCase(r, dir, ""))
 		if i%5 == 0 {
@@ -599,7 +638,22 @@ func dirtyPool(spec string, trap bool) []dirtyCase {
 	case strings.HasPrefix(spec, "F256"):
 		longOnly = "write_byte_long(0x70000 + 33, 0x4D)"
 	}
+	// the last bytes of the machine: of the 16-bit address space (the program's view) and of the linear view
+	last := map[string]string{"Linear16K": "0x3FFF", "Linear32K": "0x7FFF", "Linear48K": "0xBFFF"}[spec]
+	lastDrv := prg(0x0800, 0xE8, 0x00)
+	lastLua := ""
+	switch {
+	case spec == "Linear64K":
+		// data first, then $FFFE and $FFFF from the driver, $FFFF last
+		lastDrv = prg(0x0800, 0xA9, 0x9E, 0x8D, 0x30, 0x03, 0x8D, 0xFE, 0xFF, 0xA9, 0x9D, 0x8D, 0xFF, 0xFF, 0x00)
+		lastLua = "write_byte(0x0331, 0x9C)"
+	case last != "":
+		lastLua = "write_byte(0x0331, 0x9C); write_byte(" + last + " - 1, 0x9E); write_byte(" + last + ", 0x9D)"
+	default:
+		lastLua = fmt.Sprintf("write_byte(0x0331, 0x9C); write_byte_long(%d, 0x9E); write_byte_long(%d, 0x9D)", linTotals[spec]-2, linTotals[spec]-1)
+	}
 	pool := []dirtyCase{
+		{"lastbyte", lastDrv, "function arrange() " + lastLua + " end\nfunction assert() return true end\n" + trapFn},
 		// no instruction executed (the cycle counter stays 0), but the script touched memory
 		{"zerocycle", prg(0x0800, 0x00), "function arrange() write_byte(0x0340, 7) read_byte(0x0340) read_byte(0x0341) end\nfunction assert() return true end\n" + trapFn},
 		// cases that would pick up something a previous SCRIPT left behind (a global such as num_iterations or trap):
@@ -775,7 +829,24 @@ func isolationRun(spec string, model string, prexec, trap bool, dir string, case
 	return starts, results
 }
 
-func isolationCase(r *rng.R, dir string) string {
+// isoFixed: fixed boundary suites (machine, -prexec, the cases in their order): the case that writes the last bytes of the
+// machine followed by cases that see whether they were put back
+type isoFixed struct {
+	spec   string
+	prexec bool
+	names  []string
+}
+
+var isolationFixed = []isoFixed{
+	{"Linear64K", true, []string{"lastbyte", "clean", "lastbyte", "memory"}},
+	{"Linear64K", false, []string{"lastbyte", "clean"}},
+	{"Linear16K", true, []string{"lastbyte", "clean"}},
+	{"XSixteen512K", true, []string{"lastbyte", "clean"}},
+	{"GeoRam_512K", true, []string{"lastbyte", "clean"}},
+	{"F256_512K", true, []string{"lastbyte", "clean"}},
+}
+
+func isolationCase(r *rng.R, dir string, fixed *isoFixed) string {
 	spec := memSpecs[r.Intn(len(memSpecs))]
 	if r.Chance(40) {
 		spec = []string{"Linear32K", "XSixteen2048K", "XSixteen512K", "GeoRam_2048K", "F256_768K"}[r.Intn(5)]
@@ -783,6 +854,14 @@ func isolationCase(r *rng.R, dir string) string {
 	prexec, trap := r.Bool(), r.Bool()
 	isoCoproc = r.Chance(30)
 	isoRom = r.Chance(30)
+	// a tenth of the random suites: a case that writes the last bytes first, half of them on the 64K linear machine
+	lastFirst := r.Chance(10)
+	if lastFirst && r.Bool() {
+		spec = "Linear64K"
+	}
+	if fixed != nil {
+		spec, prexec, isoCoproc, isoRom, lastFirst = fixed.spec, fixed.prexec, false, false, false
+	}
 	defer func() { isoCoproc, isoRom = false, false }()
 	pool := dirtyPool(spec, trap)
 	if !trap {
@@ -795,6 +874,23 @@ func isolationCase(r *rng.R, dir string) string {
 		if isoRom && r.Chance(50) {
 			// one of the three cases that need / overwrite the images
 			cases[i] = pool[len(pool)-1-r.Intn(3)]
+		}
+	}
+	if lastFirst {
+		for _, dc := range pool {
+			if dc.name == "lastbyte" {
+				cases[0] = dc
+			}
+		}
+	}
+	if fixed != nil {
+		cases = cases[:0]
+		for _, nm := range fixed.names {
+			for _, dc := range pool {
+				if dc.name == nm {
+					cases = append(cases, dc)
+				}
+			}
 		}
 	}
 	model := []string{"6502", "65C02"}[r.Intn(2)]
@@ -899,7 +995,10 @@ func isolationStream(seed uint64, n int) {
 	r := rng.New(seed + 808)
 	dir := tmpDir()
 	defer os.RemoveAll(dir)
+	for i := range isolationFixed {
+		emit(isolationCase(r, dir, &isolationFixed[i]))
+	}
 	for i := 0; i < n; i++ {
-		emit(isolationCase(r, dir))
+		emit(isolationCase(r, dir, nil))
 	}
 }
